@@ -263,6 +263,52 @@ static void doExpr(const string &text)
   }
 }
 
+// `group <stale> <n>` + n lines `gexpr <text>`: ONE child process compiles all n expressions (as a simulation does), keeping every
+// compiled function alive, and only then calls each of them.  With stale >= 0 the child first plants a left-over
+// $TMP/__function_compiler_tmp_<own pid>_<stale>.c (a killed earlier run whose process id was recycled).  Prints
+//   g <i> compiled <r0> ... | g <i> compiled err:<kind> | g <i> parse err
+static void doGroup(const vector<string> &texts, int stale)
+{
+  setvbuf(stdout, NULL, _IONBF, 0);
+  if (stale >= 0) {
+    const char *tmp = getenv("TMP");
+    ostringstream nm;
+    nm << (tmp ? tmp : "/tmp") << "/__function_compiler_tmp_" << getpid() << "_" << stale << ".c";
+    ofstream f(nm.str().c_str());
+    f << "left over\n";
+  }
+  vector<FunctionParser*> ps(texts.size(), (FunctionParser*) NULL);
+  vector<FunctionCompiler*> fcs(texts.size(), (FunctionCompiler*) NULL);
+  vector<size_t> ns(texts.size(), 0);
+  vector<string> status(texts.size());
+  for (size_t k = 0; k < texts.size(); ++k) {
+    ps[k] = new FunctionParser();
+    declare(*ps[k], false);
+    try {
+      ps[k]->parse(texts[k]);
+      Variant vc = ps[k]->toC();
+      ns[k] = vc.strings().size();
+    } catch (gError &err) { status[k] = "parse err"; continue; }
+    try {
+      fcs[k] = new FunctionCompiler();
+      vector<string> res;
+      for (size_t i = 0; i < ns[k]; ++i) res.push_back(FunctionArbitrary::double2CExpression("result", 8*i));
+      fcs[k]->setResultStrings(res);
+      fcs[k]->setHeader("void *result, void *particle_tag");
+      fcs[k]->setParserAndCompile(ps[k]);
+    } catch (gError &err) { status[k] = "compiled err:gcc"; fcs[k] = NULL; }
+  }
+  for (size_t k = 0; k < texts.size(); ++k) {
+    if (!fcs[k]) { printf("g %d %s\n", (int) k, status[k].c_str()); continue; }
+    double out[9];
+    for (int i = 0; i < 9; ++i) out[i] = -777;
+    fcs[k]->fn()((void*) out, (void*) (g_mem.empty() ? NULL : &g_mem[0]));
+    string line = "compiled";
+    for (size_t i = 0; i < ns[k]; ++i) line += " " + ratOfDouble(out[i]);
+    printf("g %d %s\n", (int) k, line.c_str());
+  }
+}
+
 int main(int argc, char **argv)
 {
   if (argc > 1) g_timeout = atoi(argv[1]);
@@ -287,6 +333,39 @@ int main(int argc, char **argv)
       if (!ok) { printf("bad var line (value not a double): %s\n", line.c_str()); continue; }
       for (size_t i = 0; i < n; ++i) g_mem.push_back(vals[i]);
       g_vars.push_back(d);
+      continue;
+    }
+    if (line.compare(0, 6, "group ") == 0) {
+      int stale = -1, n = 0;
+      sscanf(line.c_str() + 6, "%d %d", &stale, &n);
+      vector<string> texts;
+      for (int k = 0; k < n && getline(cin, line); ++k) texts.push_back(line.size() > 6 ? line.substr(6) : "");
+      printf("group %d\n", n);
+      fflush(stdout);
+      int fd[2];
+      if (pipe(fd) != 0) { perror("pipe"); return 2; }
+      pid_t pid = fork();
+      if (pid == 0) {
+        close(fd[0]); dup2(fd[1], 1); close(fd[1]);
+        int devnull = open("/dev/null", O_WRONLY);
+        if (devnull >= 0) dup2(devnull, 2);
+        alarm(g_timeout * (n + 1));
+        doGroup(texts, stale);
+        fflush(stdout);
+        _exit(0);
+      }
+      close(fd[1]);
+      string out; char buf[4096]; ssize_t k;
+      while ((k = read(fd[0], buf, sizeof buf)) > 0) out.append(buf, k);
+      close(fd[0]);
+      int st = 0;
+      waitpid(pid, &st, 0);
+      size_t lastnl = out.rfind('\n');
+      if (lastnl == string::npos) out = ""; else out = out.substr(0, lastnl+1);
+      fputs(out.c_str(), stdout);
+      if (WIFSIGNALED(st)) printf(WTERMSIG(st) == SIGALRM ? "hang\n" : "crash\n");
+      printf("gend\n");
+      fflush(stdout);
       continue;
     }
     if (line.compare(0, 4, "expr") == 0) {
